@@ -8,7 +8,7 @@ import numpy as np
 from jmon import envs as E
 from jmon import specmodel as SM
 from jmon.common import Report, key_for, shard_rng
-from jmon.props._util import HEAVY, env_cfg_shards, step_cap
+from jmon.props._util import HEAVY, deep_episodes, env_cfg_shards, step_cap
 from jmon.rollout import Event, Monitor, Runner, run_episode
 
 RULE = (
@@ -195,9 +195,14 @@ def run_shard(shard: Dict[str, Any], rep: Report) -> None:
                     rep.states += info["steps"] + 1
                     rep.transitions += info["steps"]
                     rep.count("adversarial_key_episodes")
+    caps = [cap] * len(pols)
+    for pol, c in deep_episodes(shard["env"], shard["cfg"], tier, extra):
+        pols.append(pol)
+        caps.append(c)
+        rep.count("deep_episodes")
     for ep, pol in enumerate(pols):
         key, kint = key_for(seed, shard["id"], ep)
-        info = run_episode(runner, key, kint, pol, rng, [mon], episode=ep, max_steps=cap)
+        info = run_episode(runner, key, kint, pol, rng, [mon], episode=ep, max_steps=caps[ep])
         rep.states += info["steps"] + 1
         rep.transitions += info["steps"]
         rep.env_count(shard["env"], "episodes")
